@@ -15,6 +15,7 @@ is compared too.
 """
 import contextlib
 import itertools
+import math
 
 import torch
 
@@ -66,6 +67,9 @@ def cells(tier, seed):
                                                       ["default", "1e-10"], QNAMES):
         out.append({"what": what, "strategy": strat, "lik": lik, "dist": "Cholesky" if what == "bound" else "Natural",
                     "objective": "ELBO", "jit": jit, "q": q})
+    for mt, obj, sub in itertools.product(["IndepMT", "LMC"], ["ELBO", "PLL"], subsets if tier == "thorough" else subsets[::3]):
+        out.append({"what": "objective-mt", "strategy": mt, "lik": "MultitaskGaussian", "dist": "Cholesky", "objective": obj, "subset": sub,
+                    "q": "generic"})
     for strat in ("Variational", "Unwhitened"):
         for bs in ([2], [3], [2, 2]):
             out.append({"what": "ngd-batch", "strategy": strat, "lik": "Gaussian", "dist": "Natural", "objective": "ELBO", "bs": bs, "q": "generic"})
@@ -131,6 +135,84 @@ def run_ngd_batch(cell, seed, fails, notes):
             fails.check_close("ngd-batch", bv[b], rv, 1e-8, 1e-8, f"natural_vec of batch element {b} after one NGD step != non-batched replica")
             fails.check_close("ngd-batch", bm[b], rm, 1e-8, 1e-8, f"natural_mat of batch element {b} after one NGD step != non-batched replica")
     notes["ops"] = 2 * (1 + bs.numel())
+
+
+def run_objective_mt(cell, seed, fails, notes):
+    """multitask variational models (independent-multitask and LMC wrappers, q(f) a MultitaskMultivariateNormal over n x t outputs):
+    objective = (1/B) sum over the B minibatch POINTS of the point's term (summed over its t tasks) - (beta/N) KL. The moments of q(f)
+    are taken from the model (C14 decides them); the expected log-probability / predictive density, the KL and their combination are
+    written out here from the likelihood's noise values and the variational parameters."""
+    from gpytorch import kernels as K
+    from gpytorch import variational as V
+
+    g = util.gen(seed, "c15mt|" + cell["strategy"])
+    n, M, d, t = N_DATA, 3, 1, 3
+    Q = t if cell["strategy"] == "IndepMT" else 2   # number of latent GPs
+    X, Z = util.rand(g, n, d), util.rand(g, Q, M, d)
+    Y = util.randn(g, n, t)
+    idx = torch.tensor([i for i in range(n) if cell["subset"] >> i & 1])
+
+    class MT_(gpytorch.models.ApproximateGP):
+        def __init__(self):
+            vd = V.CholeskyVariationalDistribution(M, batch_shape=torch.Size([Q]))
+            base = V.VariationalStrategy(self, Z.clone(), vd, learn_inducing_locations=False)
+            if cell["strategy"] == "IndepMT":
+                vs = V.IndependentMultitaskVariationalStrategy(base, num_tasks=t)
+            else:
+                vs = V.LMCVariationalStrategy(base, num_tasks=t, num_latents=Q, latent_dim=-1)
+            super().__init__(vs)
+            self.vd = vd
+            self.mean_module = gpytorch.means.ConstantMean(batch_shape=torch.Size([Q]))
+            self.covar_module = K.ScaleKernel(K.RBFKernel(batch_shape=torch.Size([Q])), batch_shape=torch.Size([Q]))
+
+        def forward(self, x):
+            return gpytorch.distributions.MultivariateNormal(self.mean_module(x), self.covar_module(x))
+
+    model = MT_()
+    lik = gpytorch.likelihoods.MultitaskGaussianLikelihood(num_tasks=t, rank=0)
+    with torch.no_grad():
+        model.covar_module.base_kernel.lengthscale = 0.4 + util.rand(g, Q, 1, 1)
+        model.covar_module.outputscale = 0.5 + util.rand(g, Q)
+        model.mean_module.constant.copy_(0.3 * util.randn(g, Q))
+        lik.task_noises = 0.1 + util.rand(g, t)
+        lik.noise = 0.05 + 0.2 * util.rand(g, 1)
+        if cell["strategy"] == "LMC":
+            model.variational_strategy.lmc_coefficients.copy_(util.randn(g, Q, t))
+    model.train()
+    model(X)  # initialise the variational parameters from the prior
+    mq = util.randn(g, Q, M)
+    A = 0.4 * util.randn(g, Q, M, M)
+    Lq = torch.tril(A) + torch.diag_embed(0.6 + util.rand(g, Q, M))
+    with torch.no_grad():
+        model.vd.variational_mean.copy_(mq)
+        model.vd.chol_variational_covar.copy_(Lq)
+    Sq = Lq @ Lq.mT
+    # whitened: KL(N(m, S) || N(0, I)) per latent, summed over the latents
+    kl = 0.5 * (Sq.diagonal(dim1=-1, dim2=-2).sum(-1) + (mq ** 2).sum(-1) - M - torch.logdet(Sq)).sum()
+    s2 = (lik.task_noises + lik.noise).detach()   # per-task observation noise (rank 0: diagonal task noise + global noise)
+    ops = 0
+    cls = VariationalELBO if cell["objective"] == "ELBO" else PredictiveLogLikelihood
+    for N, beta in itertools.product([N_DATA, 2 * N_DATA], [0.5, 1.0, 2.0]):
+        mll = cls(lik, model, num_data=N, beta=beta)
+        with torch.no_grad():
+            qf = model(X[idx])
+            got = mll(qf, Y[idx])
+            mu, var = qf.mean, qf.variance
+        ops += 2
+        if cell["objective"] == "ELBO":
+            terms = -0.5 * (math.log(2 * math.pi) + s2.log() + ((Y[idx] - mu) ** 2 + var) / s2)
+        else:
+            terms = -0.5 * (math.log(2 * math.pi) + (var + s2).log() + (Y[idx] - mu) ** 2 / (var + s2))
+        want = terms.sum() / len(idx) - beta / N * kl
+        ok, msg = util.close(got, want, 1e-9, 1e-9)
+        if not ok:
+            hint = ""
+            if util.close(got, terms.sum() / (len(idx) * t) - beta / N * kl, 1e-9, 1e-9)[0]:
+                hint = " (= data term divided by B * t instead of B)"
+            fails.add("objective-mt", f"mismatch err={msg}{hint}", f"{cell['objective']} num_data={N} beta={beta} subset={idx.tolist()}: got "
+                      f"{float(got):.12g} want {float(want):.12g}")
+            fails[-1]["features"] = {"num_data": N, "beta": beta}
+    notes["ops"] = ops
 
 
 class ConstLoss(AddedLossTerm):
@@ -284,6 +366,14 @@ def run_cell(cell, seed):
     util.own_rng(seed, "c15-lib|" + util.jdump(cell))
     jit = 1e-10 if cell.get("jit") == "1e-10" else JIT_DEFAULT
     notes = {}
+    if cell["what"] == "objective-mt":
+        feats["B"] = bin(cell["subset"]).count("1")
+        with fails.guard("objective-mt"):
+            run_objective_mt(cell, seed, fails, notes)
+        for f in fails:
+            f["features"] = dict(feats, **f.get("features", {}))
+        return {"fails": fails[:6], "sig": "objective-mt:" + ",".join(sorted({f["sub"] for f in fails})), "features": feats,
+                "ops": notes.get("ops", 1), "nontrivial": True, "notes": notes}
     if cell["what"] == "ngd-batch":
         run_ngd_batch(cell, seed, fails, notes)
         for f in fails:
@@ -331,6 +421,20 @@ def run_objective(cell, su, fails, notes):
                     hint = " (= reference with " + name + ")"
             fails.add("objective", f"mismatch err={msg}{hint}", f"{cell['objective']} num_data={N} beta={beta} subset={idx.tolist()}: got "
                       f"{float(got):.12g} want {float(want):.12g}")
+            fails[-1]["features"] = {"num_data": N, "beta": beta}
+    # the declared data size and beta are plain attributes of the objective (KL annealing, a data set that grows): ONE objective whose
+    # attributes are re-assigned must give what an objective constructed with those values gives
+    mll = cls(su.lik, su.model, num_data=N_DATA, beta=1.0)
+    for N, beta in itertools.product([N_DATA, 2 * N_DATA], [0.5, 1.0, 2.0]):
+        mll.num_data, mll.beta = N, beta
+        with torch.no_grad():
+            got = mll(su.model(su.X[idx]), su.y[idx], **kw)
+        ops += 2
+        want = su.objective(m, Sq, idx, cell["objective"], N, beta, lp, added)
+        ok, msg = util.close(got, want, 1e-9, 1e-9)
+        if not ok:
+            fails.add("objective-reassigned", f"after mll.num_data = {N}; mll.beta = {beta}: mismatch err={msg}",
+                      f"{cell['objective']} subset={idx.tolist()}: got {float(got):.12g} want {float(want):.12g}")
             fails[-1]["features"] = {"num_data": N, "beta": beta}
     notes["ops"] = ops
 
